@@ -4,6 +4,7 @@ import TFV.Generated.Src.TheFittest_replace
 import TFV.Generated.Src.TheFittest_update
 import TFV.Generated.Src.termination_check
 import TFV.Generated.Src.get_remains_calls
+import TFV.Generated.Src.EA_get_fitness
 import TFV.Model.EA
 
 namespace TFV.SrcTie
@@ -88,5 +89,9 @@ theorem src_termination_check (best counter aim noInc : Int) :
 theorem src_get_remains_calls (pop iters calls : Int) :
     get_remains_calls pop iters calls = some (pop * iters - calls) := by
   simp [get_remains_calls]
+
+theorem src_get_fitness (calls sign : Int) (ph value : List Int) :
+    EA_get_fitness [calls] ph sign value = some [value.map (fun v => sign * v), [calls + (value.length : Int)]] := by
+  simp [EA_get_fitness, geti, leni]
 
 end TFV.SrcTie
